@@ -228,7 +228,7 @@ func Run(opts *Options) (int, error) {
 		}
 
 		pattern := patternBuilder([]rune(*opts.Filter))
-		matcher.sort = pattern.sortable
+		matcher.sort = sort && pattern.sortable
 
 		found := false
 		if streamingFilter {
